@@ -59,6 +59,7 @@ type Exec struct {
 	ghostLetTypes map[string]types.Type
 	inObjInv bool
 	curDefer *ssa.Defer
+	wclass  map[string]string // ghost waitclass PATH = CLASS
 	caseCovers map[string]int
 }
 
